@@ -166,6 +166,38 @@ def _boundaries():
     return out
 
 
+def _structural_cuts(seed, N):
+    """Structure-aware interruption points (quick tier): a cut at every byte *inside* the encoding of
+    (a) every FRAME opcode (opcode byte + 8-byte length) and the 12 bytes around it, and (b) for every distinct opcode kind of
+    the file, its first three, last three and two seeded instances (up to 14 bytes of each: opcode byte, length field, the
+    first payload bytes, and the last two payload bytes).  A reader that inspects the damaged file (frame walking, length
+    sniffing, header checks) fails at such interior points and nowhere else; uniform samples of 134 k lengths miss them."""
+    data = _cache_bytes()
+    try:
+        ops = list(pickletools.genops(data))
+    except Exception:
+        return set()
+    ends = [p for _, _, p in ops[1:]] + [len(data)]
+    by = {}
+    for (op, arg, pos), end in zip(ops, ends):
+        by.setdefault(op.name, []).append((pos, end))
+    out = set()
+    for name, inst in by.items():
+        if name == "FRAME":
+            for pos, end in inst:
+                out.update(range(max(0, pos - 2), min(N, pos + 13)))
+            continue
+        pick = inst[:3] + inst[-3:]
+        x = derive_seed(seed, "op", name)
+        for i in range(2):
+            x = derive_seed(x, i)
+            pick.append(inst[x % len(inst)])
+        for pos, end in pick:
+            out.update(range(pos, min(end, pos + 12) + 1))
+            out.update((max(pos, end - 2), max(pos, end - 1)))
+    return {k for k in out if 0 <= k <= N}
+
+
 def _prefix_cases(ctx):
     N = len(_cache_bytes())
 
@@ -179,6 +211,7 @@ def _prefix_cases(ctx):
             for i, pos in enumerate(b):
                 if pos < 400 or derive_seed(ctx.seed, "b", pos) % 60 == 0:
                     sel.update((max(0, pos - 1), pos, min(N, pos + 1)))
+            sel.update(_structural_cuts(ctx.seed, N))
             x = derive_seed(ctx.seed, "sample")
             for i in range(400):
                 x = derive_seed(x, i)
